@@ -324,9 +324,8 @@ Example C04_drop_detected_instance :
   exists j, (j <= 2)%nat /\ hdrift (arun c (firstn j [1; 0])) = true.
 Proof.
   intros c. apply (C04_hddma_drop_detected c 1 1); cbn [ha_two ha_alpha_d ha_min c]; try reflexivity;
-    try lra; try apply Nat.le_refl.
-  - change (@ln RealA) with Rpower.ln. change (INR 1) with 1. replace (1 / 1) with 1 by lra. rewrite ln_1. lra.
-  - cbn. discriminate.
+    try lra; try apply Nat.le_refl; try (cbn; discriminate).
+  change (@ln RealA) with Rpower.ln. change (INR 1) with 1. replace (1 / 1) with 1 by lra. rewrite ln_1. lra.
 Qed.
 
 From Coq Require Import PrimFloat.
